@@ -109,6 +109,14 @@ def _(run):
                z3.BoolVal(any(ast.unparse(a.value) == '{k: kwargs[k] for k in kwargs if k in RESOURCE_KWARGS}' and a.lineno < calls[0].lineno for a in assigns)), 'ast')
     need = {'base_url', 'allow', 'defuse', 'timeout', 'lazy', 'thin_lazy', 'uri_mapper', 'opener', 'block', 'iterparse', 'selector'}
     run.vc('resource-option-table-complete', pre, [], z3.BoolVal(need <= set(D.RESOURCE_KWARGS)), 'ast')
+    # the schema that the document API builds itself (from a schema= source or from location hints) gets the caller's options through SCHEMA_KWARGS
+    sneed = {'base_url', 'allow', 'defuse', 'timeout', 'uri_mapper', 'opener', 'block'}
+    run.vc('schema-option-table-contains-the-security-options', pre, [], z3.BoolVal(sneed <= set(D.SCHEMA_KWARGS)), 'ast')
+    assigns = [n for n in ast.walk(ex.fn) if isinstance(n, ast.Assign) and ast.unparse(n.targets[0]) == '_kwargs']
+    run.vc('schema-kwargs-filter-is-the-schema-option-table', pre, [], z3.BoolVal(any(ast.unparse(a.value) == '{k: kwargs[k] for k in kwargs if k in SCHEMA_KWARGS}' for a in assigns)), 'ast')
+    gs = calls_to(ex.fn, 'get_resource_schema')
+    run.vc('schema-built-with-the-filtered-options', pre, [], z3.BoolVal(len(gs) == 1 and [ast.unparse(a) for a in gs[0].args] == ['resource', 'schema', 'cls']
+                                                                      and [ast.unparse(k.value) for k in gs[0].keywords if k.arg is None] == ['_kwargs']), 'ast')
     run.paths = 1
 
 
